@@ -122,8 +122,10 @@ def apiStep (ev : Str → EvalResult) (w : World) : ApiOp → World × ApiOut
       | .error e => (w, .gaveUp e)
       | .ok .exit1 => (w, .exit1)
       | .ok (.ok sd c') =>
+        -- `DictWriter.write` re-types the string leaves of the dict it is given IN PLACE (`_retype_values`), and `parse`
+        -- returns that same object: the caller sees the re-typed dict (only a JSON source can still hold such strings)
         match writeTo ev { w with c := c' } (parseTarget src o.scope output) mode o.order (.sd sd) with
-        | (w', .done) => (w', .data sd)
+        | (w', .done) => (w', .data { sd with data := normEs sd.data })
         | (_, out) => (w, out)
   | .load p =>
     match w.fs.get (resolveSpelled p) with
